@@ -219,6 +219,7 @@ pub fn run_case<C: Check>(case: &C::Case, ctx: &mut Ctx) -> Result<(), Violation
     let _ = take_panic();
     ctx.begin_run();
     adlt_verif_seam::probes::reset();
+    adlt_verif_seam::knobs::set_lc_regular_refresh_interval(0); // default unless the case says otherwise
     let r = std::panic::catch_unwind(std::panic::AssertUnwindSafe(|| C::run(case, ctx)));
     match r {
         Ok(r) => {
